@@ -153,7 +153,7 @@ def overridable_file():
 
 def flags_key():
     toolsrc = [os.path.join(SRE, "symfp.cpp"), overridable_file()]
-    return hashlib.sha256((" ".join(BASE_FLAGS) + "".join(fhash(s) for s in toolsrc) + "v4").encode()).hexdigest()
+    return hashlib.sha256((" ".join(BASE_FLAGS) + "".join(fhash(s) for s in toolsrc) + "v4" + REPO).encode()).hexdigest()
 
 
 def repo_sources():
